@@ -90,8 +90,11 @@ class KalmanLift:
             return np.linalg.pinv(_ground(A)) @ b_arr, None, None, None
         la = npproxy.SubProxy(np.linalg, {"det": lambda a: np.linalg.det(_ground(a)), "inv": lambda a: np.linalg.inv(_ground(a)), "lstsq": lstsq})
         self.proxy = npproxy.Proxy(linalg=la)
+        real_check = kk._check_singularity
         extra = [(kk, "Dataslate", LiftDS()), (kk, "predict", predict),
-                 (kk, "_INVERSE_FUNCTION", dict(kk._INVERSE_FUNCTION, regular=lambda F: np.linalg.inv(_ground(F))))]
+                 (kk, "_INVERSE_FUNCTION", dict(kk._INVERSE_FUNCTION, regular=lambda F: np.linalg.inv(_ground(F)))),
+                 # the rank test (LAPACK svd) sees the concrete covariance matrix, as the inverse does
+                 (kk, "_check_singularity", lambda F, *a, **k: real_check(_ground(F), *a, **k))]
         self._ctx = npproxy.installed(self.proxy, kk, self.sk, self.cv, self.sm, extra=extra)
         self._ctx.__enter__()
         self._prev_float = S.ALLOW_FLOAT[0]
